@@ -99,6 +99,59 @@ def skip_case(a, grammar_io):
                       'samples': samples[:3]}))
 
 
+def load_from_file(a, grammar_io, rng):
+    """terminal files with runs of equal, nearly equal (1 ulp, 1e-12, 1e-10 apart) and clearly different probabilities: the loader
+    returns the maximal runs of exactly equal probabilities, values in file order, each group carrying that probability"""
+    import math
+    d = tempfile.mkdtemp(prefix='pcfg_loadfile_')
+    cases = 0
+    fail = None
+    samples = []
+    try:
+        for trial in range(150 if a.tier == 'quick' else 1500):
+            n = rng.randint(1, 9)
+            p = rng.choice([0.5, 0.3, 0.1 + 0.2, 1e-9, 1.2e-9, 8e-10, 0.0625])
+            rows = []
+            for i in range(n):
+                rows.append(('v%d' % i + rng.choice(['', ' ', 'é', ' x']), p))
+                step = rng.choice(['same', 'same', 'ulp', 'tiny', 'small', 'big'])
+                if step == 'ulp':
+                    p = math.nextafter(p, 0.0)
+                elif step == 'tiny':
+                    p = p * (1 - 1e-12)
+                elif step == 'small':
+                    p = p - min(p / 2, 4e-10)
+                elif step == 'big':
+                    p = p / 2
+            path = os.path.join(d, 't.txt')
+            with open(path, 'w', encoding='utf-8') as fh:
+                for v, q in rows:
+                    fh.write('%s\t%r\n' % (v, q))
+            exp = []
+            for v, q in rows:
+                if exp and exp[-1]['prob'] == q:
+                    exp[-1]['values'].append(v)
+                else:
+                    exp.append({'values': [v], 'prob': q})
+            got = []
+            ok_flag = grammar_io._load_from_file(got, path, 'utf-8')
+            cases += 1
+            if len(samples) < 2 and len(exp) > 1:
+                samples.append({'rows': rows})
+            norm = [{'values': list(g['values']), 'prob': g['prob']} for g in got]
+            if ok_flag is not True or norm != exp:
+                fail = {'function': '_load_from_file', 'file_rows': rows, 'returned': ok_flag, 'loaded': norm, 'expected': exp}
+                break
+    except Exception as ex:
+        import traceback
+        fail = {'exception': repr(ex), 'traceback': traceback.format_exc()[-1200:]}
+    finally:
+        shutil.rmtree(d, ignore_errors=True)
+    print(json.dumps({'failing_input': fail, 'failures': [fail] if fail else [], 'cases': cases, 'distinct': cases,
+                      'rule': 'random terminal files of 1-9 rows whose consecutive probabilities are equal, 1 ulp apart, 1e-12 relative apart, '
+                              '<= 4e-10 apart or halved', 'samples': samples}))
+
+
 def main():
     ap = argparse.ArgumentParser()
     ap.add_argument('--repo', default='/repo')
@@ -111,6 +164,8 @@ def main():
     rng = random.Random(a.seed)
     if a.fn == 'skip_case':
         return skip_case(a, grammar_io)
+    if a.fn == '_load_from_file':
+        return load_from_file(a, grammar_io, rng)
     d = tempfile.mkdtemp(prefix='pcfg_loader_')
     cases = 0
     distinct = set()
